@@ -158,6 +158,11 @@ def _check(prop, cfg, tier, seed, scratch, t0):
         for f in ur.report['functions']:
             if prop not in (f.get('props') or []) and prop not in (f.get('implicit') or []):
                 continue
+            if f.get('dropped'):
+                # an anchor of this fn was lost / Verus rejected a construct in it: ITS properties are undecided, the rest of the unit is not
+                undecided.append('fn %s is not verifiable as it stands (%s): left with its contract assumed' % (f['key'], f['dropped'].split('\n')[0][:200]))
+                seen_fn_keys.add(f['key'])
+                continue
             if f.get('assumed_here'):
                 continue      # contract assumed in this unit (external_body); its body is verified in another unit of the same property
             if f['key'] in seen_fn_keys:
